@@ -296,7 +296,10 @@ EXTRA = {'C01': 'Each configuration additionally runs with failing appenders (no
         "after build) and end with the drop of the appender. The traced appender's encoder appends audit lines to a "
         'second file appender from inside its encode call; that file must hold every acknowledged line once, in '
         'order. Every other record reaches the writer through write_fmt, one unit per write_str call, with Display '
-        'implementations that give up part-way (the resulting panic is data).',
+        'implementations that give up part-way (the resulting panic is data). SharedFile.tla (two appenders alive on '
+        'one path, each with a thread of its own; whole records are promised below the buffer size only - negative '
+        'control) is model-checked, and the files that real appenders leave behind must each be reachable in it '
+        '(Trace_SharedFile.tla).',
  'C05': 'The replay materialises every behaviour five times: 10-byte units with DeleteRoller, 400-byte units with a '
         'two-chunk encoder (straddling the 1 KiB BufWriter), 16-byte units with gzip archives and an appender built '
         'from a configuration value, 12-byte units with the index in a directory component of the archive pattern, '
